@@ -12,7 +12,8 @@ A set grammar `SG` is what `syntax.ResolveSets` sees after expansion:
 Unknowns: for every symbol `s` the five sets `any s`, `first s`, `last s`, `precede s`, `follow s`, and the
 value of every top-level expression. The equations (`rhsMem`: "terminal `t` belongs to the right-hand side of
 the equation of unknown `u`"), over the rules REACHABLE from the first input that requires end-of-input
-(a set nonterminal reaches the symbols its expression mentions, through named sets):
+(a set nonterminal reaches the symbols its expression mentions, through named sets; a lookahead
+nonterminal `(?= N & !M)` reaches `N` and `M`, negated or not):
 
   any t = first t = last t = {t}                                   for a terminal t
   any N     = ⋃ { any X | N → α reachable, X ∈ α }  ∪ value(e) if N : set(e)
@@ -47,6 +48,9 @@ structure SG where
   g : Grammar
   setNts : List (Nat × Nat)
   sets : List SExpr
+  /-- lookahead nonterminals `L : (?= N & !M …)` (they also have the plain rule `L → ε`) with the
+  nonterminals their predicate mentions, negated or not -/
+  laNts : List (Nat × List Nat) := []
 deriving Repr, Inhabited
 
 def SG.nT (sg : SG) : Nat := sg.g.nTerms
@@ -101,7 +105,8 @@ def SG.setOf (sg : SG) (n : Nat) : Option Nat := (sg.setNts.find? (·.1 == n)).m
 def reachGraph (sg : SG) : Graph :=
   ((List.range sg.nS).map fun s =>
       ((sg.rules.filter (·.lhs == s)).flatMap (·.rhs)).filter (· < sg.nS) ++
-        (match sg.setOf s with | some i => if i < sg.nSets then [sg.nS + i] else [] | none => []))
+        (match sg.setOf s with | some i => if i < sg.nSets then [sg.nS + i] else [] | none => []) ++
+        ((sg.laNts.filter (·.1 == s)).flatMap (·.2)).filter (· < sg.nS))
   ++ (sg.sets.map fun e => e.syms.filter (· < sg.nS) ++ (e.refs.filter (· < sg.nSets)).map (sg.nS + ·))
 
 /-- the nonterminal of the first input that requires end-of-input -/
@@ -285,7 +290,8 @@ def SG.wfB (sg : SG) : Bool :=
   sg.g.nTerms ≤ sg.g.nSyms &&
   sg.rules.all (fun r => r.lhs < sg.nS && r.rhs.all (· < sg.nS)) &&
   sg.setNts.all (fun p => sg.nT ≤ p.1 && p.1 < sg.nS && p.2 < sg.nSets) &&
-  sg.sets.all (fun e => e.syms.all (· < sg.nS) && e.refs.all (· < sg.nSets))
+  sg.sets.all (fun e => e.syms.all (· < sg.nS) && e.refs.all (· < sg.nSets)) &&
+  sg.laNts.all (fun p => p.1 < sg.nS && p.2.all (· < sg.nS))
 
 def totalCompl (sg : SG) : Nat := (sg.sets.map (·.nCompl)).sum
 
